@@ -25,11 +25,27 @@ func (s YieldStorage) Open(tbl *btapb.Table) bttest.Rows {
 }
 func (s YieldStorage) SetTableMeta(tbl *btapb.Table) { s.Inner.SetTableMeta(tbl) }
 
-// DeleteTableMeta forwards the optional interface of the disk engine.
-func (s YieldStorage) DeleteTableMeta(tbl *btapb.Table) {
-	if d, ok := s.Inner.(interface{ DeleteTableMeta(*btapb.Table) }); ok {
-		d.DeleteTableMeta(tbl)
+// tableMetaDeleter is the optional interface of storage layers that persist
+// table metadata. A wrapper must offer it exactly when the wrapped storage
+// does: the emulator asks for it by type assertion, and a wrapper that always
+// had the method would make every engine look persistent.
+type tableMetaDeleter interface {
+	DeleteTableMeta(*btapb.Table)
+}
+
+type yieldStorageMD struct{ YieldStorage }
+
+func (s yieldStorageMD) DeleteTableMeta(tbl *btapb.Table) {
+	s.Inner.(tableMetaDeleter).DeleteTableMeta(tbl)
+}
+
+// WrapYield wraps in with yield points, preserving its optional interface.
+func WrapYield(in bttest.Storage, y func(point string)) bttest.Storage {
+	w := YieldStorage{Inner: in, Y: y}
+	if _, ok := in.(tableMetaDeleter); ok {
+		return yieldStorageMD{w}
 	}
+	return w
 }
 
 type yieldRows struct {
@@ -94,11 +110,10 @@ func (s trackStorage) GetTables() []*btapb.Table           { return s.inner.GetT
 func (s trackStorage) Open(tbl *btapb.Table) bttest.Rows   { return s.track(s.inner.Open(tbl)) }
 func (s trackStorage) SetTableMeta(tbl *btapb.Table)       { s.inner.SetTableMeta(tbl) }
 
-// DeleteTableMeta forwards the optional interface of the disk engine.
-func (s trackStorage) DeleteTableMeta(tbl *btapb.Table) {
-	if d, ok := s.inner.(interface{ DeleteTableMeta(*btapb.Table) }); ok {
-		d.DeleteTableMeta(tbl)
-	}
+type trackStorageMD struct{ trackStorage }
+
+func (s trackStorageMD) DeleteTableMeta(tbl *btapb.Table) {
+	s.inner.(tableMetaDeleter).DeleteTableMeta(tbl)
 }
 
 // closeLeaked closes every Rows object that the server did not close itself.
